@@ -991,3 +991,80 @@ Proof.
   - rewrite Hp, (enf_rel o s sv Hh Hr _ ps c Hg), Ew.
     destruct (tfail_cases s ps (v_root (sv_view sv))) as [E|E]; rewrite E; reflexivity.
 Qed.
+
+(* ---- ReadDir -------------------------------------------------------------------------------------------------------- *)
+Lemma insert_sorted_osim (x y : finfo) : forall (l1 l2 : list finfo),
+  info_osim x y -> Forall2 info_osim l1 l2 ->
+  Forall2 info_osim (insert_sorted (@fi_name) x l1) (insert_sorted (@fi_name) y l2).
+Proof.
+  intros l1 l2 Hxy Hl. induction Hl as [|a b l1 l2 Hab Hl IH]; cbn [insert_sorted].
+  - constructor; [exact Hxy|constructor].
+  - destruct Hab as (Hn & Hab'). destruct Hxy as (Hxn & Hxy'). rewrite Hn, Hxn.
+    destruct (str_ltb (fi_name b) (fi_name y)); constructor; try (split; assumption); auto.
+    constructor; [split; assumption|exact Hl].
+Qed.
+
+Lemma sort_by_osim (l1 l2 : list finfo) : Forall2 info_osim l1 l2 ->
+  Forall2 info_osim (sort_by (@fi_name) l1) (sort_by (@fi_name) l2).
+Proof.
+  intros H. unfold sort_by. induction H as [|a b l1 l2 Hab Hl IH]; cbn [fold_right]; [constructor|].
+  apply insert_sorted_osim; assumption.
+Qed.
+
+Theorem orefa_step_read_dir (o : ofs) (s : fsys) (sv : sview) (ps : list str) (c : str) :
+  ohyps s sv -> orel o s sv -> gcs (ps ++ [c]) -> length (ps ++ [c]) < WALK_FUEL ->
+  osim (proj_res Linux (o_read_dir o (abs_path (ps ++ [c])))) (go_read_dir s sv (abs_path (ps ++ [c]))).
+Proof.
+  intros Hh Hr Hg Hl. pose proof Hg as Hg'. apply gcs_snoc_inv in Hg'. destruct Hg' as [Hps Hc].
+  pose proof (oh_admin _ _ Hh) as Hadm.
+  unfold o_read_dir, go_read_dir, o_open_file, k_open.
+  change (to_open_mode 0) with OpenRead. change (decode_flags 0) with (OF 0 false false false false). cbv iota beta zeta.
+  change (has OpenRead OpenCreateExcl) with false. change (has OpenRead OpenCreate) with false.
+  change (has OpenRead OpenWrite) with false. change (has OpenRead OpenTruncate) with false.
+  change (acc_mask 0 false) with 4%N. change (negb (N.eqb (N.land 4 2) 0)) with false. cbn [negb andb orb].
+  rewrite (oabs_abs o s sv Hr _ Hg), (or_os _ _ _ Hr).
+  rewrite (klookup_down s sv Hh true ps c Hg Hl), (tdown_spec (f_heap s) ps (v_root (sv_view sv)) c).
+  rewrite (@abs_path_rpath (ps ++ [c])) by (destruct ps; discriminate).
+  rewrite (split_abs_rpath ps c) by (apply comp_ok_nosl; apply good_comp_ok'; exact Hc).
+  destruct (resolve4 o s sv Hh Hr ps c Hg) as [p px i x Ew Hp Hnp Hd El Hx Hnx|p px Ew Hp Hnp Hd El Hx|p px Ew Hp Hnp Hd Hx|Ew Hp Hx];
+    rewrite Hx, Ew.
+  - rewrite Hd, El. pose proof Hx as Hx'. apply ofind_some in Hx'. destruct Hx' as [_ Hoi].
+    destruct (get (f_heap s) i) as [[chi mi|d k id mi|t mi]|] eqn:Egi; cbn [nrel] in Hnx.
+    + destruct Hnx as (y & Ey & Hxd & Hxc & Hxm). inversion Ey; subst y. rewrite Hxd.
+      assert (Hdi : node_is_dir (f_heap s) i = true) by (rewrite node_is_dir_get, Egi; reflexivity).
+      rewrite (kperm_dir_admin (f_heap s) _ Hadm i 4 Hdi). cbn [negb]. rewrite Egi.
+      unfold of_read_dir, o_dir_read, o_prologue. cbn [new_handle hd_name hd_node hd_dir_infos hd_dir_index].
+      destruct (rpath (ps ++ [c])) eqn:Ek; [exfalso; revert Ek; apply rpath_snoc_not_nil|].
+      rewrite Hoi, Hxd. cbn [negb]. rewrite (dir_batch_all (-1)) by reflexivity. cbn [snd proj_res].
+      right. right. do 2 eexists. split; [reflexivity|]. split; [reflexivity|].
+      unfold o_dir_infos. apply sort_by_osim. rewrite Hxc.
+      assert (Hall : forall nm j, In (nm, j) chi -> edge (f_heap s) i nm j) by (intros; apply edge_get; eauto).
+      clear Egi Hxc. induction chi as [|[nm j] chi IH]; cbn [flat_map map fst snd]; [constructor|].
+      assert (Hej : edge (f_heap s) i nm j) by (apply Hall; left; reflexivity).
+      assert (Hjlt : j < length (f_heap s)) by (apply (I1_valid (oh_inv _ _ Hh) i nm j Hej)).
+      destruct (get_some (f_heap s) j Hjlt) as (nj & Hgj).
+      pose proof (or_node _ _ _ Hr j) as Hnj. rewrite Hgj in Hnj.
+      assert (Hoj : exists xj, oget (o_heap o) j = Some xj).
+      { destruct nj as [? ?|? ? ? ?|t m]; cbn [nrel] in Hnj.
+        - destruct Hnj as (y & Ey' & _). eauto.
+        - destruct Hnj as (y & Ey' & _). eauto.
+        - exfalso. exact (oh_nosym _ _ Hh j t m Hgj). }
+      destruct Hoj as (xj & Hoj). rewrite Hoj. cbn [app]. constructor.
+      * assert (Hl' : alookup str_eqb nm (children (f_heap s) i) = Some j).
+        { apply in_al; [apply (I2_names (oh_inv _ _ Hh) i)|exact Hej]. }
+        apply (fill_sim s sv Hh xj i nm j nm Hl'). rewrite Hoj in Hnj. rewrite Hgj. exact Hnj.
+      * apply IH. intros nm' j' Hin. apply Hall. right. exact Hin.
+    + destruct Hnx as (y & Ey & Hxd & Hxc & Hxk & Hxm & Hdata). inversion Ey; subst y. rewrite Hxd.
+      assert (Hkp : kperm (f_heap s) i 4 (v_user (sv_view sv)) = true) by (unfold kperm; rewrite Egi, Hadm; reflexivity).
+      rewrite Hkp. cbn [negb andb]. rewrite Egi.
+      unfold of_read_dir, o_dir_read, o_prologue. cbn [new_handle hd_name hd_node o_with_heap o_with o_heap].
+      destruct (rpath (ps ++ [c])) eqn:Ek; [exfalso; revert Ek; apply rpath_snoc_not_nil|].
+      rewrite (oget_oupd _ _ _ _ _ Hoi), Nat.eqb_refl. unfold on_dir in *. cbn [on_with_data on_meta]. rewrite Hxd.
+      left. reflexivity.
+    + exfalso. exact (oh_nosym _ _ Hh i t mi Egi).
+    + discriminate.
+  - rewrite Hp, Hd, El, (nrel_dir s sv Hh px p Hnp), Hd. left. reflexivity.
+  - rewrite Hp, Hd, (nrel_dir s sv Hh px p Hnp), Hd. left. reflexivity.
+  - rewrite Hp, (enf_rel o s sv Hh Hr _ ps c Hg), Ew. left.
+    destruct (tfail_cases s ps (v_root (sv_view sv))) as [E|E]; rewrite E; reflexivity.
+Qed.
